@@ -213,7 +213,7 @@ def check_all(ctx, module_suffixes=None, funcs=None, rules=('DEADPARAM', 'FORWAR
         out['defaults'] = default_agreement(ctx, funcs)
     if 'FORWARD' in rules:
         out['delegates'] = delegate_names(ctx, funcs)
-    out['stores'] = dead_stores(ctx, funcs)
+    out['stores'] = dead_stores(ctx, funcs) + overwritten_attr_stores(ctx, funcs)
     ctx.ok('FORWARD', f"option forwarding in {len(funcs)} functions",
            f"{out.get('params', 0)} parameters examined for use, {out.get('forwarded', 0)} arguments handed "
            f"down under a parameter name, {out.get('defaults', 0)} default pairs compared, "
@@ -303,4 +303,47 @@ def dead_stores(ctx, funcs, rule='DEADSTORE'):
                               f"`{norm(node.ast)[:80]}` is never read afterwards: the following code works on something "
                               f"else than the value prepared for it",
                               key=f"{rule}|{fi.qualname}|{name}", where=common.loc(fi, node.ast))
+    return n
+
+
+def overwritten_attr_stores(ctx, funcs, rule='DEADSTORE'):
+    """
+    `self.X = <computed>` that is followed - before anything can read it (no
+    read of self.X, no call on self, self not handed out) - by an
+    unconditional `self.X = ...` at the top level of the same function: the
+    first value is lost (a block moved above the initialisers it depends on).
+    Empty baseline on the pinned tree.
+    """
+    n = 0
+    for fi in funcs:
+        stores = {}
+        for i, st in enumerate(fi.node.body):
+            for x in ast.walk(st):
+                if isinstance(x, ast.Attribute) and isinstance(x.ctx, ast.Store) and norm(x.value) == 'self':
+                    stores.setdefault(x.attr, []).append((i, st, x))
+        for attr, lst in stores.items():
+            for (i, st, x) in lst:
+                par = x._parent
+                v = par.value if isinstance(par, ast.Assign) else None
+                if v is None or isinstance(v, ast.Constant) or (
+                        isinstance(v, (ast.List, ast.Dict, ast.Tuple, ast.Set)) and not getattr(v, 'elts', getattr(v, 'keys', []))):
+                    continue
+                for (j, st2, y) in lst:
+                    if j <= i or not (isinstance(st2, ast.Assign) and any(t is y for t in st2.targets)):
+                        continue
+                    read = False
+                    for k in range(i, j + 1):
+                        for z in ast.walk(fi.node.body[k]):
+                            if isinstance(z, ast.Attribute) and isinstance(z.ctx, ast.Load) and norm(z) == f"self.{attr}":
+                                read = True
+                            if k < j and isinstance(z, ast.Call) and ((dotted(z.func) or '').startswith('self.') or any(
+                                    isinstance(a, ast.Name) and a.id == 'self' for a in list(z.args) + [kw.value for kw in z.keywords])):
+                                read = True
+                    n += 1
+                    if not read:
+                        ctx.violation(rule, f"{fi.qualname}: the value stored in self.{attr} survives until it can be read",
+                                      f"`{norm(par)[:60]}` is overwritten by `{norm(st2)[:50]}` further down before anything reads "
+                                      f"it: what was taken over there (e.g. the flags of the parent) is lost",
+                                      key=f"{rule}|{fi.qualname}|self.{attr}|overwritten", where=common.loc(fi, st))
+                        break
     return n
